@@ -93,6 +93,36 @@ def pure(rc):
             rc.fail(f, m.node, f"{f.qual} modifies {what}: `{norm(m.node, 70)}` ({m.how})", construct=f"{m.root}: {norm(m.node, 100)}")
 
 
+@rule("C16.observers", "observer methods (__str__, __repr__, __eq__, __hash__, __len__, __contains__, __iter__) never store into self", floor=20)
+def observers(rc):
+    """`str(x)`, `x == y`, `hash(x)`, `len(x)` are observations: calling them twice must give the same answer and leave the object as it was.  An observer that
+    assigns to (or accumulates into) an attribute of self changes what the next call returns (e.g. a writer whose __str__ appends to self.network emits the file
+    twice on the second call)."""
+    repo = rc.repo
+    n = 0
+    for f in repo.all_functions():
+        if f.cls is None or f.name not in ("__str__", "__repr__", "__eq__", "__ne__", "__hash__", "__len__", "__contains__", "__iter__", "__bool__"):
+            continue
+        n += 1
+        seen_attr = set()
+        for node in walk_no_nested(f.node):
+            tg = []
+            if isinstance(node, ast.Assign):
+                tg = node.targets
+            elif isinstance(node, ast.AugAssign):
+                tg = [node.target]
+            for t in tg:
+                for x in (t.elts if isinstance(t, ast.Tuple) else [t]):
+                    base = x
+                    while isinstance(base, ast.Subscript):
+                        base = base.value
+                    if isinstance(base, ast.Attribute) and dotted(base.value) == "self" and base.attr not in seen_attr:
+                        seen_attr.add(base.attr)
+                        rc.fail(f, node, f"{f.qual} stores into `self.{base.attr}` (`{norm(node, 70)}`): an observer must not change the object — the second call answers differently",
+                                construct=f"{f.qual} stores self.{base.attr}")
+        rc.ob(f"{f.file}:{f.qual}")
+
+
 def _container_edit(m):
     from ..effects import CONTAINER_MUTATORS
     h = m.how
@@ -311,6 +341,8 @@ def defuse(rc):
     _sh.defuse_rule(rc, _sh.anchor_files("C16"))
 
 MUTANTS = [
+    dict(kind="break", name="uai-writer-str-accumulates", file="pgmpy/readwrite/UAI.py", expect="C16.observers",
+         old="        network = self.network\n        network += self.no_nodes + \"\\n\"", new="        self.network += self.no_nodes + \"\\n\"\n        network = self.network"),
     dict(kind="break", name="hillclimb-edits-start-dag", file="pgmpy/estimators/HillClimbSearch.py", expect="C16.pure",
          old="            start_dag = start_dag.copy()\n", new="            pass\n"),
     dict(kind="break", name="simulate-writes-into-evidence", file="pgmpy/models/BayesianNetwork.py", expect="C16.pure",
